@@ -17,10 +17,10 @@
   What is proved, for EVERY query AST `q` (no bound on size):
     refparse_tokens_roundtrip   Printable q → refParse (tokens the printer writes for q) = q
     lex_printed_tokens          (lex_respace) adjacency condition → tokenize (render items) = tokens
-    print_parse_roundtrip_ref   Printable q → Spaced q → refParse (tokenize (print q)) = q
+    printer_output_spaced       Printable q → the printer's own output satisfies that condition
+    print_parse_roundtrip_ref   Printable q → refParse (tokenize (print q)) = q
     print_parse_roundtrip_tables  … and, under RefAgreesWithTables, Parse (print q) has the AST of q
-  `Printable` (Model: `okQ true 1`) is the decidable shape invariant of the parser's image;
-  `Spaced` is the decidable adjacency condition evaluated on q's own printed tokens.
+  `Printable` (Model: `okQ true 1`) is the decidable shape invariant of the parser's image.
 -/
 import Gojq.Proofs.RoundTripMain
 namespace Gojq.C09
@@ -80,23 +80,23 @@ theorem lex_printed_tokens_from (items : List Item) (last : Option UInt8) (inStr
     tkz f (render last items) inStr stk = toks items :=
   lex_items items last inStr stk f h hf
 
-/-- ⟦full⟧ that the printer's output satisfies the adjacency condition for every Printable query.
-    NOT PROVED in general (it needs the first / last byte of every printed construct against every
-    no-space adjacency of `writeTo`); it is a DECIDABLE property of each `q`, it is the hypothesis
-    `Spaced q` of the round-trip theorems below, it is evaluated on the instances below, and the
-    exploratory stream `selfcheck` of Driver/C09.lean evaluates it on every accepted source
-    (16 813 of 16 813 hold). -/
-def printer_output_spaced_statement : Prop := ∀ q : Query, Printable q = true → Spaced q = true
+/-- THE PRINTER'S OUTPUT SATISFIES THE ADJACENCY CONDITION, for every Printable query: no two
+    tokens `writeTo` writes next to each other merge under maximal munch (`f(`, `.[`, `-1`, `1,`,
+    `a:b` inside a slice, `"x".a`, `\(`…`)` …), the `soft` space of `Index.writeTo` separates a `.`
+    from a preceding `.` or digit (a number token always ends in a digit or `.`), every sign is
+    followed by a byte other than `=`, and an interpolated string is re-entered exactly after the
+    `)` that closes each `\(`. -/
+theorem printer_output_spaced (q : Query) (h : Printable q = true) : Spaced q = true :=
+  spaced_of_printable q h
 
 /-! ### 3. print → lex → parse -/
 
-/-- PRINT / PARSE ROUND TRIP AGAINST THE REFERENCE PARSER: for every Printable query whose printed
-    tokens satisfy the adjacency condition, printing it (`printQ` = `q.String()`, stream
+/-- PRINT / PARSE ROUND TRIP AGAINST THE REFERENCE PARSER: for every Printable query, printing it (`printQ` = `q.String()`, stream
     `refprint`), lexing the text with the transliterated lexer and parsing the tokens with the
     reference parser gives the query back. -/
-theorem print_parse_roundtrip_ref (q : Query) (hp : Printable q = true) (hs : Spaced q = true) :
+theorem print_parse_roundtrip_ref (q : Query) (hp : Printable q = true) :
     ∃ F, ∀ f, F ≤ f → refParseQ f (tokensOf (printQ q)) = some q :=
-  roundtrip_ref q hp hs
+  roundtrip_printable q hp
 
 /-- THE HYPOTHESIS KEPT EXPLICIT: the shipped LALR tables with the semantic actions accept what
     the reference parser accepts and build the same AST (compared as the canonical dump the
@@ -108,12 +108,11 @@ def RefAgreesWithTables : Prop :=
       Parse.dump v.val = Parse.dump (astProgram { body := .query q })
 
 /-- PRINT / PARSE ROUND TRIP ON THE SHIPPED TABLES, under the explicit hypothesis: `Parse` applied
-    to the printed text of a Printable, Spaced query accepts and builds that query's AST. -/
-theorem print_parse_roundtrip_tables (hyp : RefAgreesWithTables) (q : Query)
-    (hp : Printable q = true) (hs : Spaced q = true) :
+    to the printed text of a Printable query accepts and builds that query's AST. -/
+theorem print_parse_roundtrip_tables (hyp : RefAgreesWithTables) (q : Query) (hp : Printable q = true) :
     ∃ t s v, Parse.parse (printQ q) = .accept t s ∧ Parse.sem t = .ok v ∧
       Parse.dump v.val = Parse.dump (astProgram { body := .query q }) :=
-  hyp (printQ q) q (roundtrip_ref q hp hs)
+  hyp (printQ q) q (roundtrip_printable q hp)
 
 /-! ### 4. the side condition is needed: ASTs outside the parser's image do not round-trip -/
 
